@@ -65,6 +65,27 @@ def cases(rng, tier):
             b2, u2 = G.float_simplex(rng, fmt, n)
             out.append(G.line("fuse", fmt, rng.choice(G.FAMS_1D) + ".o", [n, rng.randint(0, 3), 0],
                               b1 + [u1] + G.float_dist(rng, fmt, n) + b2 + [u2] + G.float_dist(rng, fmt, n)))
+        for _ in range(N // 5):
+            # tiny positive base-rate entries (ECm maximisation guards), and both operands at the last subnormals
+            n = rng.choice([2, 3, 4])
+            den = rng.choice([4, 8, 16])
+            if rng.random() < 0.75:
+                w1 = G.tiny_opinion(rng, fmt, G.rand_opinion(rng, n, den, rng.choice(["int", "any", "dog"])), n, "a")
+                w2 = G.rand_opinion(rng, n, den, rng.choice(["int", "any", "dog"]))
+                if rng.random() < 0.5:
+                    w2 = G.tiny_opinion(rng, fmt, w2, n, "a")
+                opn = rng.choice([0, 1, 1, 1, 2, 3])
+            else:
+                sub = 2.0 ** -1074 if fmt == "f64" else 2.0 ** -149
+                def subn():
+                    k = rng.choice([2, 4]) if n >= 4 else 2
+                    b = [0.0] * n
+                    for j in rng.sample(range(n), min(k, n)):
+                        b[j] = 1.0 / min(k, n)
+                    return b + [sub * rng.choice([1, 2])] + [float(x) for x in G.rand_dist(rng, n, den)]
+                w1, w2 = subn(), subn()
+                opn = rng.randint(0, 3)
+            out.append(G.line("fuse", fmt, rng.choice(G.FAMS_1D) + rng.choice([".o", ".r", ".o.asg"]), [n, opn, 0], list(w1) + list(w2)))
         for _ in range(N // 10):
             n = rng.choice([1, 2, 3])
             b1, u1, _ = G.guard_operand(rng, fmt, n)
